@@ -364,6 +364,7 @@ def run():
             budget = len(paths) if thorough else (140 if (ropt and popt) else 50)
             if len(paths) > budget:
                 paths = rng.sample(paths, budget)
+            paths += g.random_walks(200 if thorough else (40 if (ropt and popt) else 12), 10, rng)      # other pasts for the same transitions
             for pi, p in enumerate(paths):
                 replay_path(r, g, p, ropt, popt, "reconnect=%s keepalive=%s" % (ropt, popt), variant=(pi % 2 == 1))
                 r.case((tag, tuple(p)))
